@@ -380,3 +380,8 @@ func RunReplay(table map[string]func()) {
 		panic(err)
 	}
 }
+
+// PoolReuse switches sync.Pool to recycling mode under the engine: Get returns
+// either a fresh object or the object put back last (both are explored).
+// Natively sync.Pool does what it does.
+func PoolReuse(on bool) {}
